@@ -260,6 +260,23 @@ func init() {
 			}
 			return mk(i.ps.ts.Int2BV(i.bigOperand(a[0]), 64), types.Uint64)
 		},
+		// BitLen of a symbolic integer: exact for |x| < 2^192 (an ite chain over
+		// the powers of two), 193 beyond (stated bound of the big.Int model).
+		"(*math/big.Int).BitLen": func(fr *frame, a []value) value {
+			i := fr.i
+			if !i.anyBigSym(a[0]) {
+				return fallthroughExt
+			}
+			ts := i.ps.ts
+			x := i.bigOperand(a[0])
+			abs := ts.Ite(ts.ICmp(OpILt, x, ts.IntI(0)), ts.INeg(x), x)
+			const maxBits = 192
+			r := ts.BV(maxBits+1, 64)
+			for k := maxBits; k >= 0; k-- {
+				r = ts.Ite(ts.ICmp(OpILt, abs, ts.Int(new(big.Int).Lsh(big.NewInt(1), uint(k)))), ts.BV(uint64(k), 64), r)
+			}
+			return mk(r, types.Int)
+		},
 		"(*math/big.Int).IsInt64": func(fr *frame, a []value) value {
 			i := fr.i
 			if !i.anyBigSym(a[0]) {
